@@ -209,14 +209,22 @@ func VerifC13_Retry(h *zz.H) {
 // a session is connected and between two messages.
 func VerifC13_RemoveAfter(h *zz.H) {
 	w := &c13World{h: h, budget: h.Param("BUDGET", 2), sig: make(chan bool, 16)}
-	m := c13Manager(h, w, 0)
+	var rt time.Duration
+	if h.Param("RECVTIMEOUT", 0) == 1 {
+		rt = time.Second // the receive-timeout timer may fire while a stream is silent
+	}
+	m := c13Manager(h, w, rt)
 	tgt := &tpb.Target{Addresses: []string{"addr"}}
 	h.Assert(m.Add("t", tgt, &gpb.SubscribeRequest{}) == nil, "C13: a new target is added")
-	k := h.Range("after_events", 0, h.Param("K", 2))
+	k := h.Range("after_events", h.Param("KMIN", 0), h.Param("K", 2))
 	for i := 0; i < k; i++ {
-		<-w.sig
+		if h.Param("AWAIT", 0) == 1 {
+			h.Await(w.sig) // a path on which fewer callbacks can occur within the bounds is dropped
+		} else {
+			<-w.sig
+		}
 	}
-	if h.Range("reconnect", 0, 1) == 1 {
+	if h.Param("RECONNECT", 1) == 1 && h.Range("reconnect", 0, 1) == 1 {
 		m.Reconnect("t")
 	}
 	err := m.Remove("t")
